@@ -11,7 +11,7 @@ import impl_model as im
 from gen import structures as gs
 from props import sdm_common as sc
 
-THEOREMS = ['C14_needed_symmetry_good', 'C14_packer_good', 'C14_grow_images_exact', 'C14_packer_no_coincide', 'C14_needed_symmetry_complete', 'C14_packer_complete']
+THEOREMS = ['C14_needed_symmetry_good', 'C14_packer_good', 'C14_grow_images_exact', 'C14_packer_no_coincide', 'C14_needed_symmetry_complete', 'C14_packer_complete', 'C14_packer_compares_with_atoms_only']
 SH2 = list(itertools.product(range(-2, 3), repeat=3))
 
 
@@ -42,7 +42,7 @@ def oracle(ctx, st, ob, with_q):
     new = grown[len(orig):]
     from props.c13 import exact_ops
     exact = [([[float(v) for v in row] for row in o[0]], [float(t) for t in o[1]]) for o in exact_ops(st)]
-    placed = [(a.part.n, [a.x, a.y, a.z]) for a in orig]
+    placed = [(a.part.n, [a.x, a.y, a.z]) for a in orig if not a.qpeak]      # a Q-peak is not an atom: an image atom may lie on one
     images = set()
     for g in new:
         ev += 1
@@ -98,7 +98,8 @@ def oracle(ctx, st, ob, with_q):
     # output omits their images
     for i, a in enumerate(atoms):
         mols.setdefault(a.molindex, []).append(i)
-    present_xyz = [(a.part.n, [a.x, a.y, a.z]) for a in grown]
+    # a Q-peak is not an atom: an image atom is only 'already there' when an atom (original or image) lies within 0.2 A of its place
+    present_xyz = [(a.part.n, [a.x, a.y, a.z]) for a in grown if not a.qpeak]
 
     def image_atoms(mi, n, k):
         R, t = ops[n]
@@ -310,14 +311,29 @@ def run(ctx):
         mc = sc.metric_constants_ok(ob)
         if mc and not any('metric constants' in x for x in ctx.broken):
             ctx.broken.append('correspondence: metric constants of the SDM object differ from the cell: ' + mc)
-        defs.append(sc.coq_defs(ob, k))
-        t = sc.coq_checks(ob, k, with_q)
-        terms += t[2:]
-        st['_tied_covalent'] = any((a1, a2) in ob['tied'] and c for a1, a2, d, n, c in ob['items'])
-        chunk.append(st)
+        todo = [(st, ob, k, with_q)]
+        # every fourth structure once more with Q-peaks put onto the places of (up to three) image atoms and with_qpeaks set: a Q-peak is not
+        # an atom, it must not hide the image atom it sits on (oracle and model tie, both)
+        if k % 4 == 2 and ob['grown']:
+            st2 = dict(st)
+            pick = [g for g in ob['grown'] if g['part'] == 0][:3] or ob['grown'][:1]
+            st2['qpeaks'] = list(st['qpeaks']) + [{'name': 'Q%d' % (len(st['qpeaks']) + 1 + i), 'xyz': [round(v, 4) for v in g['xyz']]} for i, g in enumerate(pick)]
+            try:
+                ob2 = sc.observe(st2, True)
+                ev += oracle(ctx, st2, ob2, True)
+                todo.append((st2, ob2, k + 100000, True))
+                ctx.notes.setdefault('coverage_extra', {})['qpeaks_on_image_places'] = ctx.notes.get('coverage_extra', {}).get('qpeaks_on_image_places', 0) + 1
+            except Exception as ex:
+                common.add_violation(ctx, 'calc_sdm / packer raised on a valid structure', {'name': st2['name'], 'text': gs.to_text(st2)}, 'no exception', repr(ex))
+        for (st_, ob_, k_, wq_) in todo:
+            defs.append(sc.coq_defs(ob_, k_))
+            t = sc.coq_checks(ob_, k_, wq_)
+            terms += t[2:]
+            st_['_tied_covalent'] = any((a1, a2) in ob_['tied'] and c for a1, a2, d, n, c in ob_['items'])
+            chunk.append(st_)
         if k < 2:
             common.sample(ctx, {'space_group': st['name'], 'atoms': len(st['atoms']), 'needed_symmetry': ob['need'][:3], 'added_atoms': len(ob['grown'])})
-        if len(chunk) == 10:
+        if len(chunk) >= 10:
             shards.append((sc.PRE + '\n'.join(defs), terms)); meta.append(chunk)
             defs, terms, chunk = [], [], []
     if chunk:
